@@ -18,6 +18,7 @@ mod fam_driver;
 mod fam_emitter;
 mod fam_files;
 mod fam_lints;
+mod fam_totality;
 mod fam_request;
 mod fam_doccomment;
 mod fam_options;
@@ -106,6 +107,7 @@ pub fn make_family(name: &str) -> Option<Box<dyn Family>> {
         "repro" => Some(Box::new(fam_repro::Repro::default())),
         "rules" => Some(Box::new(fam_rules::Rules::default())),
         "lints" => Some(Box::new(fam_lints::Lints::default())),
+        "totality" => Some(Box::new(fam_totality::Totality::default())),
         "request" => Some(Box::new(fam_request::Request::default())),
         "doccomment" => Some(Box::new(fam_doccomment::DocComments)),
         "wire" => Some(Box::new(fam_wire::Wire::default())),
